@@ -31,6 +31,8 @@ type HistGen struct {
 	nonce uint64
 	// Touched tx ids / recent keys for observation
 	Watch []string
+	// WithConfirm: deliver with a dummy block confirmation (op deliverc)
+	WithConfirm bool
 	// Pause (seconds) is added to the timestamp of the next block built (retarget mode only)
 	Pause uint32
 }
@@ -229,6 +231,8 @@ func (h *HistGen) Deliver(b *types.Block) (string, string) {
 	var out string
 	if h.S.Retarget {
 		out = h.Emit("deliverw %d %x %s", b.Timestamp, b.Bits, h.S.N.Describe(b))
+	} else if h.WithConfirm {
+		out = h.Emit("deliverc %s", h.S.N.Describe(b))
 	} else {
 		out = h.Emit("deliver %s", h.S.N.Describe(b))
 	}
